@@ -125,6 +125,9 @@ template <typename T, typename... Ts>
 void ObjectPool<T, Ts...>::reset(unsigned workers,
            ProgressHandler* progress_watcher)
 {
+    // The clamp below is for this pool only; nested pools get the
+    // requested number (a pool without blocks must not starve them)
+    const unsigned requested_workers = workers;
     auto workers_needed = std::max(allocated_blocks.size(),
                                    fresh_blocks.size());
     if (workers_needed < workers)
@@ -171,6 +174,6 @@ void ObjectPool<T, Ts...>::reset(unsigned workers,
     allocated_blocks.clear();
     fresh_blocks.clear();
 
-    next().reset(workers, progress_watcher);
+    next().reset(requested_workers, progress_watcher);
 }
 }   // namespace libfive
